@@ -215,7 +215,10 @@ func checkFacts(repo string) (string, error) {
 				seenCheck = true
 			}
 			if is, ok := s.(*ast.IfStmt); ok && seenCheck && untypedConst && is.Init == nil && is.Else == nil &&
-				ifCond(is) == "n.typ != nil && isUntypedConst(c0) && (isUntypedConst(c1) || isShiftNode(n) && c1.rval.IsValid())" &&
+				// since 707c765 the rule also applies, without a pushed-down type, to the operand of a return statement
+				// (a context outside the model): both shapes are the rule of 3f5ccd5
+				(ifCond(is) == "n.typ != nil && isUntypedConst(c0) && (isUntypedConst(c1) || isShiftNode(n) && c1.rval.IsValid())" ||
+					ifCond(is) == "(n.typ != nil || n.anc.kind == returnStmt) && isUntypedConst(c0) && (isUntypedConst(c1) || isShiftNode(n) && c1.rval.IsValid())") &&
 				len(is.Body.List) == 1 && render(is.Body.List[0]) == "n.typ = c0.typ" {
 				f["untypedStays"] = "true"
 			}
@@ -286,8 +289,15 @@ func checkFacts(repo string) (string, error) {
 	// builtin len
 	f["lenConstString"] = "false /- " + unrec("len case of the builtin calls") + " -/"
 	constString := false
+	f["lenAnyConstString"] = "false"
 	if fd := common.FindFunc(fC, "", "isConstString"); fd != nil {
-		constString = render(fd.Body) == "{ return n.rval.IsValid() && isString(n.typ.TypeOf()) && (n.kind == basicLit || isConstantValue(n.rval.Type())) }"
+		switch render(fd.Body) {
+		case "{ return n.rval.IsValid() && isString(n.typ.TypeOf()) && (n.kind == basicLit || isConstantValue(n.rval.Type())) }":
+			constString = true
+		case "{ for n.kind == parenExpr { n = n.child[0] } if !n.rval.IsValid() || !isString(n.typ.TypeOf()) { return false } if n.kind == identExpr || n.kind == selectorExpr { return isConstantValue(n.rval.Type()) } return true }":
+			constString = true
+			f["lenAnyConstString"] = "true"
+		}
 	}
 	if len(casesOf(cfg, `bname == "len" && isInConstOrTypeDecl(n)`)) == 1 {
 		f["lenConstString"] = "false"
@@ -300,8 +310,14 @@ func checkFacts(repo string) (string, error) {
 	f["runeLitKeepsType"] = "false"
 	if fd := common.FindFunc(fY, "", "nodeType2"); fd != nil {
 		for _, cc := range casesOf(fd, "constant.Int") {
-			if len(cc.Body) == 2 && render(cc.Body[0]) == "t = untypedInt(n)" {
-				if is, ok := cc.Body[1].(*ast.IfStmt); ok && ifCond(is) == `strings.HasPrefix(n.ident, "'")` && len(is.Body.List) == 1 &&
+			body := cc.Body
+			if len(body) == 3 {
+				if is, ok := body[0].(*ast.IfStmt); ok && strings.HasPrefix(ifCond(is), "constant.BitLen(v) > ") {
+					body = body[1:] // the limit on literals (638fc07) precedes
+				}
+			}
+			if len(body) == 2 && render(body[0]) == "t = untypedInt(n)" {
+				if is, ok := body[1].(*ast.IfStmt); ok && ifCond(is) == `strings.HasPrefix(n.ident, "'")` && len(is.Body.List) == 1 &&
 					render(is.Body.List[0]) == "t = untypedRune(n)" {
 					f["runeLitKeepsType"] = "true"
 				}
@@ -320,6 +336,80 @@ func checkFacts(repo string) (string, error) {
 		}
 	} else {
 		f["f32Direct"] = "false /- " + unrec("typecheck.convertConst") + " -/"
+	}
+
+	// shift: the guarded replacement of an untyped left operand
+	f["shiftBoolGuard"] = "false"
+	if shift != nil {
+		for _, is := range ifsIn(shift.Body.List) {
+			if ifCond(is) == "c0.typ.untyped && c0.rval.IsValid()" && len(is.Body.List) == 1 {
+				if in, ok := is.Body.List[0].(*ast.IfStmt); ok && ifInit(in) == "c, ok := c0.rval.Interface().(constant.Value)" && ifCond(in) == "ok" &&
+					len(in.Body.List) == 2 && render(in.Body.List[0]) == "v0 = constant.ToInt(c)" && render(in.Body.List[1]) == "c0.rval = reflect.ValueOf(v0)" {
+					f["shiftBoolGuard"] = "true"
+				}
+			}
+		}
+	}
+
+	// binaryExpr, case aAdd: two untyped constants are not compared with the node type
+	f["addSkipsUntyped"] = "false"
+	if fd := common.FindFunc(fT, "typecheck", "binaryExpr"); fd != nil {
+		for _, cc := range casesOf(fd, "aAdd") {
+			if len(cc.Body) > 0 {
+				if is, ok := cc.Body[0].(*ast.IfStmt); ok && len(is.Body.List) == 1 && render(is.Body.List[0]) == "break" {
+					switch ifCond(is) {
+					case "n.typ == nil || isUntypedConst(c0) && isUntypedConst(c1)":
+						f["addSkipsUntyped"] = "true"
+					case "n.typ == nil":
+						f["addSkipsUntyped"] = "false"
+					default:
+						f["addSkipsUntyped"] = "false /- " + unrec("aAdd case of typecheck.binaryExpr") + " -/"
+					}
+				}
+			}
+		}
+	}
+
+	// cfg.go binaryExpr case: the type of an operation on a typed operand
+	f["operandTypeWins"] = "false"
+	for _, cc := range casesOf(cfg, "aAdd, aSub, aMul, aQuo, aAnd, aOr, aXor, aAndNot") {
+		if len(cc.Body) == 1 && render(cc.Body[0]) == "switch { case n.typ == nil: case !c0.typ.untyped: n.typ = c0.typ case !c1.typ.untyped: n.typ = c1.typ }" {
+			f["operandTypeWins"] = "true"
+		} else {
+			f["operandTypeWins"] = "false /- " + unrec("operand type case of the binaryExpr case") + " -/"
+		}
+	}
+
+	// conversion: string(c), the code point
+	f["codepointChecked"] = "false"
+	if fd := common.FindFunc(fT, "typecheck", "conversion"); fd != nil {
+		for _, is := range ifsIn(fd.Body.List) {
+			if ifInit(is) == "i, ok := constant.Int64Val(c)" {
+				switch {
+				case ifCond(is) == "ok && i == int64(rune(i))" && len(is.Body.List) == 1 && render(is.Body.List[0]) == "codepoint = rune(i)":
+					f["codepointChecked"] = "true"
+				case ifCond(is) == "ok" && len(is.Body.List) == 1 && render(is.Body.List[0]) == "codepoint = i":
+					f["codepointChecked"] = "false"
+				default:
+					f["codepointChecked"] = "false /- " + unrec("code point of string(c)") + " -/"
+				}
+			}
+		}
+	}
+
+	// nodeType2, basicLit: the limit on integer literals
+	f["litBitsMax"] = "none"
+	if fd := common.FindFunc(fY, "", "nodeType2"); fd != nil {
+		for _, cc := range casesOf(fd, "constant.Int") {
+			if len(cc.Body) > 0 {
+				if is, ok := cc.Body[0].(*ast.IfStmt); ok && is.Init == nil {
+					if m := regexp.MustCompile(`^constant\.BitLen\(v\) > (\d+)$`).FindStringSubmatch(ifCond(is)); m != nil &&
+						len(is.Body.List) == 2 && strings.HasPrefix(render(is.Body.List[0]), "err = n.cfgErrorf(") && render(is.Body.List[1]) == "break" {
+						f["litBitsMax"] = "some " + m[1]
+					}
+				}
+			}
+		}
 	}
 
 	// constToken
@@ -344,7 +434,8 @@ func checkFacts(repo string) (string, error) {
 	fmt.Fprintf(&b, "/-- interp/typecheck.go: constToken -/\ndef constToken : List (Act × Tok) :=\n  [%s]\n", strings.Join(toks, ", "))
 	order := []string{"constExprBin", "constExprUn", "overflowBin", "overflowUn", "intBitsMax", "shiftCountMax", "shiftClamp", "quoIntExact",
 		"quoEarlyReturn", "zeroForm", "untypedStays", "floatShiftCount", "convTypedChecked", "reprConstValue", "boolConvChecked",
-		"foldLogical", "cmpNotPushed", "lenConstString", "runeLitKeepsType", "f32Direct"}
+		"foldLogical", "cmpNotPushed", "lenConstString", "runeLitKeepsType", "f32Direct",
+		"shiftBoolGuard", "addSkipsUntyped", "operandTypeWins", "codepointChecked", "lenAnyConstString", "litBitsMax"}
 	var fields []string
 	for _, k := range order {
 		fields = append(fields, k+" := "+f[k])
